@@ -103,7 +103,37 @@ def execute(op):
             return ['cli', status, out]
         finally:
             shutil.rmtree(d, ignore_errors=True)
+    if kind == 'json':
+        # --json into an output directory that lives as long as this process: in the long-lived process earlier
+        # steps have left their files there, in a fresh fork it is empty
+        _, files = op
+        if _state.get('outdir') is None:
+            _state['outdir'] = tempfile.mkdtemp(prefix='c19o', dir='/dev/shm' if os.path.isdir('/dev/shm') else None)
+        out = _state['outdir']
+        d = tempfile.mkdtemp(prefix='c19', dir='/dev/shm' if os.path.isdir('/dev/shm') else None)
+        try:
+            for name, blob in files:
+                with open(os.path.join(d, name), 'wb') as f:
+                    f.write(blob)
+            # files left by earlier steps get an ancient time stamp: whatever this run writes is recognisable
+            for n in os.listdir(out):
+                os.utime(os.path.join(out, n), ns=(0, 0))
+            try:
+                status, _o, err = RUN.main_inprocess(['-p', d, '-j', '-o', out])
+            except Exception as e:
+                return ['cli-raised', type(e).__name__]
+            written = {}
+            for n in sorted(os.listdir(out)):
+                if os.stat(os.path.join(out, n)).st_mtime_ns != 0:
+                    with open(os.path.join(out, n), 'rb') as f:
+                        written[n] = f.read().decode('utf-8', 'replace')
+            return ['json', status, json.dumps(written, sort_keys=True)]
+        finally:
+            shutil.rmtree(d, ignore_errors=True)
     raise HarnessError('unknown op %r' % (kind,))
+
+
+_state = {'outdir': None}
 
 
 def _send(fd, obj):
@@ -146,6 +176,8 @@ def _serve(rfd, wfd):
         except BaseException:
             res = ['harness-error', traceback.format_exc()]
         _send(wfd, res)
+    if _state.get('outdir'):
+        shutil.rmtree(_state['outdir'], ignore_errors=True)
     os._exit(0)
 
 
@@ -272,7 +304,7 @@ def drawer_section(draw):
 
 
 @st.composite
-def pool_pel(draw, creator=None):
+def pool_pel(draw, creator=None, eid=None):
     if creator is None:
         creator = draw(st.sampled_from([ord('O'), ord('O'), ord('O'), ord('B'), ord('B'), ord('K'), ord('M'), ord('M'),
                                          ord('H')]))
@@ -329,6 +361,8 @@ def pool_pel(draw, creator=None):
         else:
             secs.append(draw(S.raw_section(max_len=12)))
     pel = draw(S.pel_model(creator=creator, secs=st.just(secs), selectable=draw(st.integers(0, 3)) != 0))
+    if eid is not None:
+        pel['ph']['eid'] = eid          # the same log id again (a log updated in place, or one of another system)
     blob = M.encode(pel)
     if kind == 'damaged':
         cc = draw(corruption_case('quick'))
@@ -340,7 +374,7 @@ def pool_pel(draw, creator=None):
             cc['trunc'] %= max(len(blob), 1)
         blob = damage(cc)
     comps = sorted({s['comp'] for s in secs if s['k'] in ('UD', 'ED')})
-    return {'blob': blob, 'creator': chr(creator), 'comps': comps, 'kind': kind,
+    return {'blob': blob, 'creator': chr(creator), 'comps': comps, 'kind': kind, 'eid': pel['ph']['eid'],
             'fixture_free': chr(creator) in 'MH' and not any(x['k'] == 'ED' for x in secs)}
 
 
@@ -417,8 +451,20 @@ class HistoryMachine(RuleBasedStateMachine):
     @rule(target=pels, i=pels, data=st.data())
     def add_sibling(self, i, data):
         # another log of the same creator (same parser modules, tables and name files, other values)
-        self.pool.append(data.draw(pool_pel(creator=ord(self.pool[i]['creator']))))
+        same_id = data.draw(st.booleans())
+        self.pool.append(data.draw(pool_pel(creator=ord(self.pool[i]['creator']),
+                                            eid=self.pool[i].get('eid') if same_id else None)))
         return len(self.pool) - 1
+
+    @rule(idx=st.lists(pels, min_size=1, max_size=3))
+    def to_json(self, idx):
+        # file names repeat from step to step (slot names), so a later log can land on the output name of an
+        # earlier one when the entry ids agree
+        files = [['slot%d' % k, self.pool[i]['blob']] for k, i in enumerate(idx)]
+        self.step(['json', files], 'peltool -j -o <out> over PELs %r' % idx)
+        for i in idx:
+            p = self.pool[i]
+            self.decodes.append((i, 'doc', p['creator'], tuple(p['comps'])))
 
     @rule(i=pels, cfg=cfg_st)
     def decode(self, i, cfg):
@@ -474,7 +520,7 @@ class HistoryMachine(RuleBasedStateMachine):
 
 
 def _brief(r):
-    if r and r[0] in ('doc', 'cli', 'headers'):
+    if r and r[0] in ('doc', 'cli', 'headers', 'json'):
         s = r[-1]
         return '%s(%d chars, sha %s)' % (r[0], len(s), core.digest(s)[:8]) + \
             (' status %s' % r[1] if r[0] == 'cli' else '')
